@@ -224,6 +224,19 @@ def _oracle(ctx, case, real, rt, tap):
     registry = {}
     for spec in case["env"]["extractors"]:
         registry[rt.classes[spec["cls"]]] = spec
+    # the start fields as the program text gives them, per (unique) action type
+    spec_fields = {}
+
+    def walk(block):
+        for st_ in block:
+            sp = st_.get("spec")
+            if sp is not None and st_["op"] in ("with", "startAs"):
+                spec_fields[sp["atype"]] = None if sp["atype"] in spec_fields else sp["fields"]
+            for kk_ in ("body", "handler"):
+                if kk_ in st_:
+                    walk(st_[kk_])
+    walk(case["prog"])
+    spec_fields.pop("", None)
     # --- group the action messages of the view by action
     by_action = {}
     pos = {}
@@ -274,8 +287,26 @@ def _oracle(ctx, case, real, rt, tap):
             if canon(want.get(kk, "<absent>")) != canon(got.get(kk, "<absent>")):
                 ctx.violation("%s: start message field %r is %s, the start fields say %s" % (where, kk, canon(got.get(kk, "<absent>")), canon(want.get(kk, "<absent>"))), case)
                 return
+        # ... and those are the fields the program gave (the tap sits on a private method: compare with the program text too)
+        try:
+            atype = act._identification.get("action_type")
+        except BaseException:  # noqa
+            atype = None
+        if atype in spec_fields and spec_fields[atype] is not None:
+            want_p = {kk: rt.canon_plain(rt.value(v)) for kk, v in spec_fields[atype] if kk not in STRUCT}
+            for kk in set(want_p) | set(got):
+                if kk in gl or kk in ("action_type", "action_status"):
+                    continue
+                if canon(want_p.get(kk, "<absent>")) != canon(got.get(kk, "<absent>")) and not (isinstance(got.get(kk), dict) and "ser" in got.get(kk)):
+                    ctx.violation("%s: start message field %r is %s, the program passed %s to start_action" % (where, kk, canon(got.get(kk, "<absent>")), canon(want_p.get(kk, "<absent>"))), case)
+                    return
         # ---- end: exactly one iff finished
         reqs = [r for r in tap.requests if r["act"] is act]
+        for later in reqs[1:]:
+            if later.get("s1") != later.get("s0") or later.get("x1") != later.get("x0"):
+                ctx.violation("%s: finishing it again (%s) emitted %d message(s) and ran %d extractor call(s); it must do nothing"
+                              % (where, later["kind"], (later.get("s1") or 0) - (later.get("s0") or 0), (later.get("x1") or 0) - (later.get("x0") or 0)), case)
+                return
         if len(reqs) > 1:
             n_repeat += 1
         if not reqs:
